@@ -56,7 +56,9 @@ CHECKS = [
           "fuel |src|+2 suffices), an error result is non-empty, and every name/start-state span indexes the text the user wrote "
           "(spans_index_source; the pinned code is refuted by C11_spans_index_source_refuted / C11_target_span_refuted and was repaired). "
           "Tie: impl vs mirror transcripts on generated, mutated and truncated specs; an abstract-spec oracle (rules in order, names, "
-          "start states, targets, span texts), regex equivalence through the regex crate on string batteries, flag probes.",
+          "start states, targets, span texts), regex equivalence through the regex crate on string batteries, flag probes. The whole-file "
+          "round trip lex_from_str (print_spec layout spec) = spec_of spec is PROVED (C11_lex_roundtrip) and the formal printer's text is fed "
+          "to the real parser on every run.",
   "design_ref": "DESIGN.md §5 C11, §A.3",
   "note": _TB + "the %grmtools header end position and regex compilability are inputs of the mirror (header parser: C12; regex crate: oracle).",
   "technique": "Coq proof on a mirror of the lex parser (escape rewriting = spec, totality, span indexing) + abstract-spec oracle + impl/mirror differential"},
@@ -120,7 +122,9 @@ CHECKS = [
           "refuted). Tie: whole-transcript equality impl vs mirror on printed, mutated and truncated sources; print-then-parse oracle over "
           "abstract grammars x 7 layouts; every accessor on every valid index vs the mirror.",
   "design_ref": "DESIGN.md §5 C10",
-  "note": _TB + "the whole-file round-trip law parse(print lay ag) = ag is decided by the oracle per generated (grammar, layout), not proved: partial.",
+  "note": _TB + "the whole-file round-trip law parse (print layout ag) = ast_of ag is PROVED (C10round_yacc_roundtrip) for the Original dialect and the "
+          "declarations %start/%token/%left/%right/%nonassoc/%epp/%avoid_insert/%expect/%expect-rr, all layouts of blanks/newlines/comments and quoting "
+          "styles; the Coq printer's text is what the check feeds the real parser. Grmtools/Eco dialects, %actiontype/%parse-param/programs: by oracle only.",
   "technique": "Coq proof on mirrors of the yacc parser and grammar builder (totality, faithfulness, ranges, lexical round trips) + print-then-parse oracle + transcript differential"},
  {"id": "C13",
   "text": "Coq theorems for the logic Coq can carry: the $-substitution scanner mirror meets its tokenisation spec for ALL action texts "
@@ -199,8 +203,10 @@ CHECKS = [
           "parse furthest (reference_complete / reference_none, enum_exact), Del/Ins commute (so the normal form loses no cheaper repair), "
           "the simplified output is NoDup, ends in no Shift, is sorted by (avoid_insert, length), never inserts EOF and has one cost "
           "(simplify_postconditions). An executable MIRROR of the bucketed search (dijkstra + merging + rank + simplify) exists and the "
-          "pinned search is refuted against the reference (search_complete_refuted; repaired in /repo); that the repaired search returns "
-          "exactly the reference set for all inputs is stated (search_complete_stmt true) but NOT proved: partial. Per generated error the "
+          "pinned search is refuted against the reference (search_complete_refuted; repaired in /repo). SOUNDNESS of the search mirror is "
+          "proved for all inputs (node_invariant, buckets_in_cost_order, first_success_is_minimal_among_explored, returned_same_cost, "
+          "reported_are_successes, mirror_output_form; under reduce-confluence reported_valid and reported_cost_ge_reference); its "
+          "COMPLETENESS (the repaired search returns every reference sequence) is stated (search_complete_stmt true) but NOT proved: partial. Per generated error the "
           "implementation's list is compared with the reference set (missing / extra / over-priced sequence = witness) and the ordering, "
           "dedup, equal-cost, no-trailing-shift, no-EOF clauses are checked directly.",
   "design_ref": "DESIGN.md §5 C06, §5B",
